@@ -132,8 +132,12 @@ void h_obj_select(void) {
     else if (s->type == SEG_G) { if (s->idx >= num_objs || s->nterms < 1 || s->nterms > num_vars) expect_bad = 1;
       else for (u32 t = 0; t < MAXV; t++) { if (t < s->nterms && s->tvar[t] >= num_vars) expect_bad = 1; } }
   }
+#ifdef VIA_CALLBACK
+  u32 rc = w_read_cb(S, (u32)objno, multi, num_vars, num_objs, 0, flags);      /* options arrive through the after-header callback */
+#else
   w_solver_set(S, (u32)objno, multi);
   u32 rc = w_read(S, num_vars, num_objs, 0, flags);
+#endif
   VF_OBS(rc); VF_OBS(addobjs_calls); VF_OBS(nobj_added); VF_OBS(bad_access);
   /* ----- oracle ----- */
   u32 k = (u32)(objno < 0 ? -objno : objno); int specified = objno >= 0; int multiobj = multi && objno < 0;
